@@ -158,6 +158,15 @@ def run_case(cs):
         world.write_tree(root, tree)
     subdirs = [x for x in tree if tree[x] is None]
     nested = rng.sample(subdirs, min(len(subdirs), rng.choice([0, 0, 1, 2, 3])))
+    unstorable = None
+    if rng.random() < 0.06:
+        # a name the file system accepts and XML 1.0 cannot store, alone in its folder (all records of a generation)
+        os.makedirs(os.path.join(root, "solo"), exist_ok=True)
+        tree["solo"] = None
+        unstorable = world.add_unstorable_name(rng, root, tree, where="solo")
+        if unstorable and rng.random() < 0.5:
+            nested.append("solo")
+        cs.count("trees_with_name_not_storable_in_xml")
     if "ch/mid/in" in tree:
         nested = list(dict.fromkeys(nested + ["ch/mid/in", "ch/mid", "ch"]))
     for n in sorted(nested, key=lambda s: -s.count("/")) if rng.random() < 0.5 else nested:
@@ -201,6 +210,8 @@ def run_case(cs):
             r = drive.run("create", [root] + world.fmt_args(fm) + opts + co)
         elif kind == "sf":
             sel = rng.sample(files, min(len(files), rng.choice([1, 1, 2, 3])))
+            if unstorable and unstorable in files and rng.random() < 0.6:
+                sel = [unstorable]
             oc = ["sf", "n%d" % len(sel)]
             if dirs and rng.random() < 0.5:
                 dsel = rng.choice(dirs)
